@@ -352,6 +352,11 @@ def run(rep, ix, tier):
     from . import C04
     C04.check_len(rep, ix)
     rep.floor('R-C04-LEN', 7)
+    # the LAS writer shared by the three converters (WriteLAS.py is an anchor): curve section, heading and data rows must
+    # select the same channels -- rule of C10
+    from . import C10
+    C10.check_pred(rep, ix)
+    rep.floor('R-C10-PRED', 8)
     typeflow.check_attrs(rep, ix, 'R-C11-ATTR', [(RT, None), (LT, None), (BT, None)])
     rep.floor('R-C11-SELECT', 20)
     rep.floor('R-C11-WELL', 14)
